@@ -63,6 +63,7 @@ func main() {
 	}
 	t.MapRanges = w.mapRanges()
 	t.Accessors = w.accessors()
+	t.Iterators = w.iterators()
 	t.Collections = w.collections()
 	t.CliCmds = w.cliCmds()
 	t.Rpcs = w.rpcs()
